@@ -10,7 +10,7 @@ from harness import htaio
 from harness.props import common as C
 from harness.props import cpcommon as CP
 
-N_CASES = {"quick": 110, "thorough": 1800}
+N_CASES = {"quick": 200, "thorough": 1800}
 SHRINK = True
 ASSUMPTIONS = [
     "successful critical-path analyses of causally consistent well-formed traces (C08); the reported path is the implementation's (C09 decides its optimality)",
